@@ -18,7 +18,8 @@ let hex_of_bytes (l : n list) : string =
 let flag i = Array.length Sys.argv > i && Sys.argv.(i) = "1"
 let ext = ref default_ext
 let tight = ref false
-let cf () = { cfg_global_check = flag 1; cfg_weak_refused = flag 2; cfg_unreg_single = flag 3; cfg_ext = !ext; cfg_udp_gated = flag 4; cfg_tight = !tight }
+let encfail = ref false
+let cf () = { cfg_global_check = flag 1; cfg_weak_refused = flag 2; cfg_unreg_single = flag 3; cfg_ext = !ext; cfg_udp_gated = flag 4; cfg_enc_fail = !encfail; cfg_check = xor_check; cfg_tight = !tight }
 
 let p = ref proc_init
 
@@ -38,7 +39,8 @@ let () =
   iter_lines stdin (fun line ->
     match split_ws line with
     | [] -> ()
-    | "case" :: _ -> p := proc_init; ext := default_ext; tight := false; print_endline line
+    | "case" :: _ -> p := proc_init; ext := default_ext; tight := false; encfail := false; print_endline line
+    | ["encfail"; b] -> encfail := (b = "1"); obs ()
     | ["tight"; b] -> tight := (b = "1"); obs ()
     | ["types"; a; b; c; d] -> ext := List.map (fun s -> z_of_int (int_of_string s)) [a; b; c; d]; obs ()
     | ["udpon"; s] -> doit (OUdpOn (ni s))
@@ -49,6 +51,9 @@ let () =
     | "screen" :: w :: h :: name :: "list" :: fvo :: pws ->
         doit (OScreen { s_pw = PwList (List.map bytes_of_hex pws, z_of_int (int_of_string fvo));
                         s_w = n_of_int (int_of_string w); s_h = n_of_int (int_of_string h); s_name = bytes_of_hex name })
+    | "screen" :: w :: h :: name :: "custom" :: [] ->
+        doit (OScreen { s_pw = PwCustom; s_w = n_of_int (int_of_string w); s_h = n_of_int (int_of_string h); s_name = bytes_of_hex name })
+    | "setlist" :: s :: fvo :: pws -> doit (OSetList (ni s, List.map bytes_of_hex pws, z_of_int (int_of_string fvo)))
     | "screen" :: w :: h :: name :: "file" :: content :: [] ->
         doit (OScreen { s_pw = PwFile (bytes_of_hex content); s_w = n_of_int (int_of_string w);
                         s_h = n_of_int (int_of_string h); s_name = bytes_of_hex name })
